@@ -28,7 +28,7 @@ Proof.
           by (apply IH; rewrite ssize_sapp; lia).
         assert (Hb : tbody fs S G n (sapp b rest) (sapp b rest) sigma <> TOutOfFuel)
           by (apply IH; rewrite ssize_sapp; lia).
-        simpl. destruct (f_cf fs); [|discriminate].
+        simpl. destruct (f_cf fs) as [[| | |] [| | |]| |]; try discriminate.
         destruct (tbody fs S G n (sapp a rest) (sapp a rest) sigma) as [ie| |];
           destruct (tbody fs S G n (sapp b rest) (sapp b rest) sigma) as [ee| |];
           try congruence; try discriminate.
@@ -138,8 +138,7 @@ Section Equations.
     match s with
     | SIf c a b =>
         match f_cf fs with
-        | CfUnknown => TRefused
-        | CfContinuation =>
+        | CfContinuation BrCopy BrCopy =>
             match tbody fs S G n (sapp a rest) (sapp a rest) sigma,
                   tbody fs S G n (sapp b rest) (sapp b rest) sigma with
             | TOutOfFuel, _ | _, TOutOfFuel => TOutOfFuel
@@ -154,6 +153,7 @@ Section Equations.
                 end
             | _, _ => TRefused
             end
+        | _ => TRefused
         end
     | SReturn e => lift (texpr fs S G sigma e)
     | SReturnNone => TRefused
@@ -715,7 +715,7 @@ Section Sound.
             eapply IH; [|exact Ht|exact He].
             apply inv_bind; [|exact Hi]. exact (args_sound _ _ _ _ _ Hi Hta Hev).
           * (* SIf *) rewrite exec1_SIf in He.
-            change (f_cf ef) with CfContinuation in Ht. red_in Ht.
+            change (f_cf ef) with (CfContinuation BrCopy BrCopy) in Ht. red_in Ht.
             destruct (tbody ef S G n (sapp a rest) (sapp a rest) sigma) as [ie| |] eqn:Hie;
               destruct (tbody ef S G n (sapp b rest) (sapp b rest) sigma) as [ee| |] eqn:Hee;
               red_in Ht; try discriminate Ht.
@@ -744,7 +744,8 @@ Section Sound.
   Lemma tfun_sound : forall fd, fun_rel (run_fun F fd) (tfun expected_facts S fd).
   Proof.
     intros fd ps e Heq vs v rho Hrun Hext.
-    unfold tfun in Heq.
+    unfold tfun, tbody_top in Heq.
+    change (f_cf expected_facts) with (CfContinuation BrCopy BrCopy) in Heq. red_in Heq.
     destruct (tbody expected_facts S (fd_globals fd) (Datatypes.S (ssize (fd_body fd)))
                 (fd_body fd) (fd_body fd) (map (fun p => (p, SSym p)) (fd_params fd)))
       as [e'| |] eqn:Ht; try discriminate Heq.
